@@ -60,3 +60,7 @@ Assumed('wpull/protocol/http/request.py', 'Response.__init__', {'self': TObj('HT
 Assumed('wpull/namevalue.py', 'NameValueRecord.parse', {'self': TObj('NameValueRecord'), 'string': TBytes(), 'strict': TBool()}, defaults={'strict': True},
         modifies=['self.map', 'self.count'], raises={'ValueError': ['strict']}, note='malformed field lines are skipped unless strict (then ValueError); verified under C09')
 lib.MODULE_CONSTS['Response'] = VFunc('class', 'HTTPResponse')
+
+Assumed('wpull/namevalue.py', 'NameValueRecord.__delitem__', {'self': TObj('NameValueRecord'), 'name': TStr()}, modifies=['self.map', 'self.count'],
+        ensures=['not (norm(name) in self.map)', 'forall_str(lambda k: implies(k != norm(name), (k in self.map) == (k in old(self.map)) and implies(k in self.map, self.map[k] == old(self.map)[k])))'],
+        raises={'KeyError': ['not (norm(name) in old(self.map))']})
